@@ -136,7 +136,7 @@ Section FromArg.
   Lemma from_arg_string_l f fam ft s c :
     subtree (r_tree r) fam = Some ft -> tree_from_alias ft s = Some c ->
     from_arg r (S f) fam (VStr s) = construct r f c [].
-  Proof. intros Hs Hc. simpl. unfold from_alias_with. now rewrite Hs, Hc. Qed.
+  Proof. intros Hs Hc. simpl. unfold from_alias_with. simpl. now rewrite Hs, Hc. Qed.
 
   (** a mapping with 'alias': that is the alias; every other item - 'name'
       included - is a keyword argument *)
@@ -168,12 +168,19 @@ Section FromArg.
   Qed.
 
   (** an alias no class of the family carries: ValueError, whatever the arguments *)
+  Lemma no_cls kw : ~ In "cls" (keys kw) -> mem_str "cls" (keys kw) = false.
+  Proof.
+    intros H. destruct (mem_str "cls" (keys kw)) eqn:E; [|reflexivity].
+    apply mem_str_true in E. contradiction.
+  Qed.
+
   Lemma from_alias_unknown_l f fam ft s kw :
     subtree (r_tree r) fam = Some ft ->
+    ~ In "cls" (keys kw) ->
     (forall n, In n (visit_order ft) -> ~ In s (t_al n)) ->
     from_alias r f fam (VStr s) kw = Err ValueError.
   Proof.
-    intros Hs Hno. unfold from_alias, from_alias_with. rewrite Hs.
+    intros Hs Hcls Hno. unfold from_alias, from_alias_with. rewrite (no_cls _ Hcls), Hs.
     destruct (tree_from_alias ft s) as [c|] eqn:E; [|reflexivity].
     destruct (tree_from_alias_in _ _ _ E) as [n [Hn [_ Ha]]]. exfalso. exact (Hno n Hn Ha).
   Qed.
@@ -182,11 +189,20 @@ Section FromArg.
       the family, and it receives exactly the remaining items as keywords *)
   Lemma from_alias_known_l f fam ft s kw c :
     subtree (r_tree r) fam = Some ft -> tree_from_alias ft s = Some c ->
+    ~ In "cls" (keys kw) ->
     from_alias r f fam (VStr s) kw = construct r f c kw
     /\ is_subclass (r_tree r) c fam = true.
   Proof.
-    intros Hs Hc. split.
-    - unfold from_alias, from_alias_with. now rewrite Hs, Hc.
+    intros Hs Hc Hcls. split.
+    - unfold from_alias, from_alias_with. now rewrite (no_cls _ Hcls), Hs, Hc.
     - eapply tree_from_alias_is_subclass; eauto.
+  Qed.
+
+  (** a keyword named 'cls' collides with from_alias's own first parameter *)
+  Lemma from_alias_cls_keyword_l f fam a kw :
+    In "cls" (keys kw) -> from_alias r f fam a kw = Err TypeError.
+  Proof.
+    intros H. unfold from_alias, from_alias_with.
+    apply mem_str_true in H. now rewrite H.
   Qed.
 End FromArg.
